@@ -136,7 +136,7 @@ class JsonTables:
         keys = {}
         from .astnorm import normalise_function
         meths = {m: fi.node for m, fi in self.ctx.repo.classes[func.cls].methods.items()} if func.cls in self.ctx.repo.classes else None
-        fnode = normalise_function(func.node, methods=meths, module=func.module.tree)   # helpers, aliases, tables and comprehensions over them written out
+        fnode = normalise_function(func.node, methods=meths, module=self._module_with_imports(func.module))   # helpers, aliases, tables and comprehensions over them written out
         for n in ast.walk(fnode):
             if isinstance(n, ast.Call) and isinstance(n.func, ast.Attribute) and n.func.attr == "update":
                 for kw in n.keywords:
@@ -167,6 +167,35 @@ class JsonTables:
                         break
         return keys
 
+    def _module_with_imports(self, mod):
+        """The module's top level plus the package functions and literal tables it imports by name (`from ._util import helper`): for
+        the macro expansion they are as good as local."""
+        memo = self.__dict__.setdefault("_mwi", {})
+        if id(mod) not in memo:
+            body = list(mod.tree.body)
+            have = {d.name for d in body if isinstance(d, ast.FunctionDef)}
+            for st0 in mod.tree.body:
+                if isinstance(st0, ast.ImportFrom) and st0.level >= 1:
+                    for al in st0.names:
+                        if al.asname is not None or al.name in have:
+                            continue
+                        fi = self.ctx.repo.functions.get(al.name)
+                        if fi is not None:
+                            body.append(fi.node)
+                            have.add(al.name)
+                            for d in fi.module.tree.body:   # ... and the helpers of its own module it may be written with
+                                if isinstance(d, ast.FunctionDef) and d.name not in have:
+                                    body.append(d)
+                                    have.add(d.name)
+                            continue
+                        for m2 in self.ctx.repo.modules.values():
+                            if m2.name == (st0.module or "").split(".")[-1]:
+                                for d in m2.tree.body:
+                                    if isinstance(d, ast.Assign) and any(isinstance(t, ast.Name) and t.id == al.name for t in d.targets):
+                                        body.append(d)
+            memo[id(mod)] = ast.Module(body=body, type_ignores=[])
+        return memo[id(mod)]
+
     # -- readers ----------------------------------------------------------------------------
     def _readers(self):
         r = self.ctx.repo
@@ -175,7 +204,7 @@ class JsonTables:
             if f.name not in ("read_json_data", "read_simple_json"):
                 continue
             meths = {m: fi.node for m, fi in r.classes[f.cls].methods.items()} if f.cls in r.classes else None
-            fnode = normalise_function(f.node, methods=meths, module=f.module.tree)   # one-line helpers (e.g. a builder of extra keyword arguments) are expanded
+            fnode = normalise_function(f.node, methods=meths, module=self._module_with_imports(f.module))   # one-line helpers (e.g. a builder of extra keyword arguments) are expanded
             # classes listed in a literal table of the function: a call through a variable may construct any of them
             table_classes = sorted({x.id for t in ast.walk(fnode) if isinstance(t, (ast.Tuple, ast.List)) for x in t.elts if isinstance(x, ast.Name) and x.id in self.ctor})
             assigns = {}
@@ -369,7 +398,7 @@ class JsonTables:
         # bound-method aliases and loops over literal attribute names are expanded first)
         from .astnorm import normalise_function
         ft = self.ctx.types.ftypes(rd)
-        rdn = normalise_function(rd.node, module=rd.module.tree)
+        rdn = normalise_function(rd.node, module=self._module_with_imports(rd.module))
         for n in ast.walk(rdn):
             if isinstance(n, ast.Assign) and len(n.targets) == 1 and isinstance(n.targets[0], ast.Attribute) and isinstance(n.targets[0].value, ast.Name) \
                     and n.targets[0].value.id != "self":
